@@ -1,7 +1,7 @@
 (* Soundness of the lock discipline (C15): a table of accesses that is pairwise protected
    admits no race, for every set of threads whose accesses the table covers and for every
    well-formed trace. *)
-From SG Require Import Base.Prelude Model.Lockset.
+From SG Require Import Base.Prelude Model.Lockset Model.LocksetRegions.
 
 (* ---- lock-state invariant: two holdings of one lock are both read holdings ---------- *)
 
@@ -292,3 +292,60 @@ Theorem race_free_of_discipline : forall A wl,
 Proof.
   intros A wl H ps c x Hcov Hr. eapply lockset_sound_pairwise; eauto. apply discipline_ok_sound; auto.
 Qed.
+
+(* ---- unlock discipline (Model/LocksetRegions.v) ------------------------------------- *)
+
+(* A body that passes the static check leaves no lock behind, whichever of its may-panic calls
+   panics (or none): after a recovered panic the goroutine holds exactly what it held before. *)
+Lemma fcheck_no_leak : forall b held deferred p,
+  fcheck b held deferred = true -> fexec b held deferred p = [].
+Proof.
+  induction b as [|s r IH]; intros held deferred p H; cbn in *.
+  - destruct (leftover held deferred); [reflexivity|discriminate].
+  - destruct s as [l|l|l|[|]]; cbn in *; try (apply IH; exact H).
+    apply andb_true_iff in H. destruct H as [H0 H1].
+    destruct p as [[|n]|]; try (apply IH; exact H1).
+    destruct (leftover held deferred); [reflexivity|discriminate].
+Qed.
+
+Theorem no_lock_leak : forall b p, fcheck b [] [] = true -> fexec b [] [] p = [].
+Proof. intros b p H. apply fcheck_no_leak; exact H. Qed.
+
+(* ... and the check is exact: if it fails, some choice of the panicking call (or a normal
+   run) leaves a lock behind *)
+Lemma fcheck_complete : forall b held deferred,
+  fcheck b held deferred = false -> exists p, fexec b held deferred p <> [].
+Proof.
+  induction b as [|s r IH]; intros held deferred H; cbn in *.
+  - exists None. destruct (leftover held deferred); [discriminate|intro E; discriminate].
+  - destruct s as [l|l|l|[|]]; cbn in *; try (apply IH; exact H).
+    apply andb_false_iff in H. destruct H as [H|H].
+    + exists (Some O). destruct (leftover held deferred); [discriminate|intro E; discriminate].
+    + destruct (IH _ _ H) as [[n|] Hp].
+      * exists (Some (S n)). exact Hp.
+      * exists None. exact Hp.
+Qed.
+
+Lemma is_nil_filter_app {A} (g : A -> bool) (x y : list A) :
+  is_nil (filter g (x ++ y)) = (is_nil (filter g x) && is_nil (filter g y))%bool.
+Proof. rewrite filter_app. destruct (filter g x); reflexivity. Qed.
+
+(* the table check on the facts the extractor emits for one body implies the static check *)
+Lemma regions_ok_fcheck_gen : forall f b held deferred n,
+  regions_ok (facts_go f b held deferred n) strict_policy = true -> fcheck b held deferred = true.
+Proof.
+  unfold regions_ok, region_violations.
+  induction b as [|s r IH]; intros held deferred n H; cbn in *.
+  - destruct (leftover held deferred); [reflexivity|cbn in H; discriminate].
+  - destruct s as [l|l|l|[|]]; cbn in *; try (eapply IH; exact H).
+    rewrite is_nil_filter_app in H. apply andb_true_iff in H. destruct H as [H0 H1].
+    rewrite (IH _ _ _ H1), andb_true_r.
+    clear - H0. unfold leftover.
+    induction held as [|l hs IHh]; [reflexivity|].
+    cbn in H0 |- *. unfold region_bad in H0 at 1. cbn in H0.
+    destruct (existsb (String.eqb l) deferred); cbn in H0 |- *; [apply IHh; exact H0|discriminate].
+Qed.
+
+Theorem regions_ok_fcheck : forall f b,
+  regions_ok (facts_of_body f b) strict_policy = true -> fcheck b [] [] = true.
+Proof. intros f b H. eapply regions_ok_fcheck_gen; exact H. Qed.
